@@ -368,4 +368,15 @@ def run(P, R, tier):
     # an awaited bit that does not fit its mask is lost and the soft hold never released
     rules.narrowing_fields(P, R, 'C03.WID.1', ('modules/iauth_core.c', 'modules/iauth_xquery.c', 'modules/iauth_class.c'))
     rules.counter_widths(P, R, 'C03.WID.2', recs=('iauth_xquery_service', 'iauth_request'))
+    # shared with other properties (round 9): what the client is waiting for can only arrive if ...
+    from ..report import Remap as _Remap
+    from . import c04 as _c04, c10 as _c10, c09 as _c09, c08 as _c08
+    # ... the tag sent with a query is whole (a cut tag never matches the reply: the hold is never released)
+    _c04.tag_capacity(P, R, 'C03.TAB.3')
+    # ... every announcement starts from a fresh, zeroed request (no holds inherited from the id's previous user)
+    _c10.table_sites(P, _Remap(R, {'C10.WMC.1': 'C03.WMC.3'}))
+    # ... a verdict leaves the process in the step that produced it (one flush per message)
+    _c09.sender_body(P, _Remap(R, {'C09.FMT.2': 'C03.FMT.1'}))
+    # ... no message is dropped for want of words it does not need (a blank ident answer is `<id> u` alone)
+    _c08.terminator_and_arity(P, _Remap(R, {'C08.TAB.1': 'C03.TAB.4'}))
     return EXPLANATION, ASSUMPTIONS
